@@ -177,8 +177,11 @@ class Report:
             cov['discharged'] = 0
             cov.setdefault('evaluations', 1)
             cov.setdefault('distinct_nontrivial', 2)
-        os.makedirs(os.path.join(ROOT, 'evidence'), exist_ok=True)
-        with open(os.path.join(ROOT, 'evidence', f'{self.pid}.json'), 'w') as f:
+        # evidence/ describes /repo itself; a run against another tree (VERIF_REPO=<scratch worktree with a seeded change>) must not
+        # overwrite it
+        evdir = 'evidence' if os.path.realpath(REPO) == os.path.realpath('/repo') else os.path.join('replays', 'evidence_other_tree')
+        os.makedirs(os.path.join(ROOT, evdir), exist_ok=True)
+        with open(os.path.join(ROOT, evdir, f'{self.pid}.json'), 'w') as f:
             json.dump(ev, f, indent=1, default=str)
         for line in self.known:
             print(f"KNOWN-FINDING: property={self.pid} {line}")
